@@ -122,7 +122,8 @@ Section Cycle.
     unfold load. set (fuel := S (S (List.length fs))).
     destruct (resolve_sym fs cfg _ (parent entry)) as [obj|].
     - destruct (load_module fuel fs cfg st0 obj) as [st1|e] eqn:E1.
-      + destruct (load_module_spec fs cfg fuel _ _ _ E1 (Inv_st0 fs cfg)) as (I1 & S1 & _ & _).
+      + destruct (pkg_eqb (pkg_of fs obj) ["bloch"; "lang"]%string); [|discriminate].
+        destruct (load_module_spec fs cfg fuel _ _ _ E1 (Inv_st0 fs cfg)) as (I1 & S1 & _ & _).
         destruct (load_module fuel fs cfg st1 entry) as [st2|e] eqn:E2.
         * destruct (Nat.eqb (total_mains fs (order st2)) 1); discriminate.
         * intros [= ->]. apply (load_module_cycle fuel st1 entry I1 E2). rewrite S1. cbn. exact I.
